@@ -385,3 +385,6 @@ pub fn vx_select_order(g0: bool, g1: bool) -> (r: usize)
 pub fn vx_select_panics()
     requires false, // OBL:C07.job_task.select_never_panics
 { unimplemented!() }
+
+// R18: `tokio::spawn(async move { .. })` inside an extracted body: the detached block runs later or never, none of its effects is visible here
+pub fn vx_spawn_detached() {}
